@@ -188,7 +188,7 @@ static std::vector<std::pair<std::string, std::string>> run_forked(Harness& h, c
 
 static int minimise(Harness& h, Plan p, const std::string& out, const std::string& cls, const std::string& sig)
 {
-	double t0 = wall(); int evals = 0; const int max_evals = 500; const double max_secs = 90;
+	double t0 = wall(); int evals = 0; const int max_evals = 400; const double max_secs = 45;
 	auto fails = [&](Plan& cand) -> bool
 	{
 		int64_t base = cand.knob("sched_seed", 1);
